@@ -86,7 +86,12 @@ fn new_machine(req: &Value) -> Result<Machine, String> {
             image[addr - 0xC0000..addr - 0xC0000 + data.len()].copy_from_slice(&data);
         }
     }
-    rt.load_rom(&image, 0xC0000);
+    if get_str(&cfg, "map", "bare") == "pce500" {
+        sc62015_core::pce500::load_pce500_rom_window(&mut rt, &image)
+            .map_err(|e| format!("load_pce500_rom_window: {e}"))?;
+    } else {
+        rt.load_rom(&image, 0xC0000);
+    }
     if let Some(card) = cfg.get("card") {
         let size = get_u64(card, "size", 0) as usize;
         if size > 0 {
@@ -191,7 +196,24 @@ fn observe(m: &Machine) -> Value {
         kb = json!({"fifo": k.fifo_snapshot(), "pressed": pressed});
     }
     let t = &rt.timer;
+    // Write protection is memory behaviour: report the protected address set in a canonical form
+    // (sorted, overlapping/adjacent ranges merged) so that equivalent representations compare equal.
+    let mut ro: Vec<(u32, u32)> = rt.memory.readonly_ranges().to_vec();
+    ro.sort();
+    let mut merged: Vec<(u32, u32)> = Vec::new();
+    for (s0, e0) in ro {
+        if let Some(last) = merged.last_mut() {
+            if s0 <= last.1.saturating_add(1) {
+                if e0 > last.1 {
+                    last.1 = e0;
+                }
+                continue;
+            }
+        }
+        merged.push((s0, e0));
+    }
     json!({
+        "memmap": {"readonly": merged},
         "regs": regs,
         "imem": hex(rt.memory.internal_slice()),
         "win": win,
